@@ -14,6 +14,13 @@ def directed_replay_histories():
               [{"op": "createfile", "name": "O", "blob": 1}, {"op": "chmod", "name": "O", "perm": 0o600}, {"op": "remove", "name": "N"}]]
     hs = []
     k = 0
+    # a rename's target name later reused by an entry of the other kind (file -> directory and directory -> file)
+    for a_kind in ("file", "dir"):
+        mk = (lambda n: {"op": "createfile", "name": n, "blob": 0}) if a_kind == "file" else (lambda n: {"op": "mkdir", "name": n, "perm": 0o755})
+        mk2 = (lambda n: {"op": "mkdir", "name": n, "perm": 0o700}) if a_kind == "file" else (lambda n: {"op": "createfile", "name": n, "blob": 1})
+        calls = [{"op": "initialize"}, mk("/a"), {"op": "rename", "name": "/a", "name2": "/x"}, {"op": "remove", "name": "/x"}, mk2("/x"), {"op": "chmod", "name": "/x", "perm": 0o750}]
+        hs.append({"config": {"rs": [20, 3][k % 2], "cache": "file"}, "blobs": [{"seed": 1, "len": 700}, {"seed": 2, "len": 10}], "obs": [], "calls": calls, "_directed": True})
+        k += 1
     for setup, N, O in (
             ([{"op": "createfile", "name": "/a.txt", "blob": 0}, {"op": "rename", "name": "/a.txt", "name2": "/b.txt"}], "/b.txt", "/a.txt"),
             ([{"op": "createfile", "name": "/a.txt", "blob": 0}, {"op": "createfile", "name": "/b.txt", "blob": 1}, {"op": "rename", "name": "/a.txt", "name2": "/b.txt"}], "/b.txt", "/a.txt"),
